@@ -15,10 +15,25 @@ def chunk_loops(ctx, f):
     out = []
     for n in U.walk_no_nested(f.node):
         if isinstance(n, ast.For) and isinstance(n.iter, ast.Call) and isinstance(n.iter.func, ast.Name) and n.iter.func.id in ('range', 'xrange') \
-                and len(n.iter.args) == 3 and isinstance(n.iter.args[1], ast.Call) and isinstance(n.iter.args[1].func, ast.Name) and n.iter.args[1].func.id == 'len' \
-                and isinstance(n.target, ast.Name):
-            out.append((n, n.iter.args[1].args[0], n.iter.args[2], n.target.id))
+                and len(n.iter.args) == 3 and isinstance(n.target, ast.Name):
+            bound = U.deref1(ctx.P, f, n.iter.args[1])      # a length hoisted into a local is looked through
+            if isinstance(bound, ast.Call) and isinstance(bound.func, ast.Name) and bound.func.id == 'len' and bound.args:
+                out.append((n, bound.args[0], n.iter.args[2], n.target.id))
     return out
+
+
+def _deref_lengths(P, f, cond):
+    """classifier condition with locals that hold a length (`total = len(X)`) replaced by that length"""
+    import copy
+    defs = U.single_defs(P, f)
+
+    class T(ast.NodeTransformer):
+        def visit_Name(self, n):
+            d = defs.get(n.id)
+            if isinstance(n.ctx, ast.Load) and isinstance(d, ast.Call) and isinstance(d.func, ast.Name) and d.func.id == 'len':
+                return ast.copy_location(copy.deepcopy(d), n)
+            return n
+    return T().visit(copy.deepcopy(cond))
 
 
 def _classifier(loop, var_candidates):
@@ -102,6 +117,7 @@ def r_chunk_length(ctx):
             ctx.unproven(inst, f.loc(loop), 'chunk classifier is not an if/elif chain of constant kinds')
             continue
         foreign = []
+        chain = [(_deref_lengths(P, f, cond) if cond is not None else None, kind) for cond, kind in chain]
         for cond, kind in chain:
             if cond is None:
                 continue
@@ -677,37 +693,34 @@ def r_length_range(ctx):
     ex = U.explorer(ctx, parse)
     res = U.full_run(ctx, parse)
     cfg = ex.cfg
-    lvar = None
-    for n in ast.walk(parse.node):
-        if isinstance(n, ast.Assign) and isinstance(n.targets[0], ast.Name) and any(isinstance(c, ast.Call) and isinstance(c.func, ast.Attribute) and c.func.attr == 'unpack' for c in ast.walk(n.value)):
-            lvar = n.targets[0].id
-    ctx.require(lvar, 'length variable not found')
-    fmt = [c.args[0].value for c in P.calls_in(parse) if isinstance(c.func, ast.Attribute) and c.func.attr == 'unpack'][0]
-    H = struct.calcsize(fmt)
-    lt = ex.tb.term(ast.Name(id=lvar, ctx=ast.Load()))
+    # every slice of the read buffer with a computed bound: 0 <= lower <= upper <= len(buffer) on every path
     uses = []
     for n in cfg.nodes:
         if n.kind == 'stmt' and n.ast is not None:
-            for s in ast.walk(n.ast):
-                if isinstance(s, ast.Subscript) and isinstance(s.slice, ast.Slice) and P.self_attr(s.value, parse.self_name) == rbuf \
-                        and any(isinstance(x, ast.Name) and x.id == lvar for x in ast.walk(s.slice)):
-                    uses.append((n, s))
+            for s_ in ast.walk(n.ast):
+                if isinstance(s_, ast.Subscript) and isinstance(s_.slice, ast.Slice) and P.self_attr(s_.value, parse.self_name) == rbuf \
+                        and any(x is not None and not isinstance(x, ast.Constant) for x in (s_.slice.lower, s_.slice.upper)):
+                    uses.append((n, s_))
     ctx.require(uses, 'the length is not used as a slice bound of the read buffer')
     zero = ex.tb.term(ast.Constant(value=0))
-    avail = ex.tb.term(U.parse_expr('len(self.%s) - %d' % (rbuf, H)))
-    for n, s in uses:
-        inst = '`%s`: length bounded' % unparse(s)
-        ok1, c1 = U.must(ctx, res, n.id, ('le', zero, lt))
-        ok2, c2 = U.must(ctx, res, n.id, ('le', lt, avail))
+    blen = ex.tb.term(U.parse_expr('len(self.%s)' % rbuf))
+    for n, s_ in uses:
+        inst = '`%s`: length bounded' % unparse(s_)
+        lo = ex.tb.term(s_.slice.lower) if s_.slice.lower is not None else zero
+        up = ex.tb.term(s_.slice.upper) if s_.slice.upper is not None else None
+        ok1, c1 = U.must(ctx, res, n.id, ('le', zero, lo))
+        if ok1 and up is not None:
+            ok1, c1 = U.must(ctx, res, n.id, ('le', lo, up))
+        ok2, c2 = U.must(ctx, res, n.id, ('le', up if up is not None else lo, blen))
         if ok1 and ok2:
-            ctx.ok(inst, parse.loc(s), '0 <= %s <= len(buffer) - %d entailed' % (lvar, H))
+            ctx.ok(inst, parse.loc(s_), '0 <= lower <= upper <= len(buffer) entailed')
         elif not ok1:
-            ctx.violation('%s:length-no-lower-bound' % parse.qualname, parse.loc(s),
+            ctx.violation('%s:length-no-lower-bound' % parse.qualname, parse.loc(s_),
                           '`%s` is evaluated on a path where the received length may be negative: a frame with a negative length field selects a sender-chosen slice '
-                          'and moves the buffer backwards instead of disconnecting: %s' % (unparse(s), res.path_str(n.id, c1)), instance=inst)
+                          'and moves the buffer backwards instead of disconnecting: %s' % (unparse(s_), res.path_str(n.id, c1)), instance=inst)
         else:
-            ctx.violation('%s:length-no-upper-bound' % parse.qualname, parse.loc(s),
-                          '`%s` is evaluated before enough bytes are known to be buffered: a partial frame is decoded' % unparse(s), instance=inst)
+            ctx.violation('%s:length-no-upper-bound' % parse.qualname, parse.loc(s_),
+                          '`%s` is evaluated before enough bytes are known to be buffered: a partial frame is decoded' % unparse(s_), instance=inst)
     ctx.expect_min(2)
 
 
@@ -802,9 +815,12 @@ def r_consume_once(ctx):
         if isinstance(n, ast.Assign) and isinstance(n.targets[0], ast.Name) and any(isinstance(c, ast.Call) and isinstance(c.func, ast.Attribute) and c.func.attr == 'unpack' for c in ast.walk(n.value)):
             lvar = n.targets[0].id
     okv = False
-    if adv and isinstance(adv[0].value, ast.Subscript) and isinstance(adv[0].value.slice, ast.Slice) and adv[0].value.slice.upper is None and adv[0].value.slice.lower is not None:
-        t = ex.tb.term(adv[0].value.slice.lower)
-        okv = t.base is not None and t.base.key == lvar and t.off == H and P.self_attr(adv[0].value.value, parse.self_name) == rbuf
+    fres = U.full_run(ctx, parse)
+    want_end = ex.tb.term(U.parse_expr('%s + %d' % (lvar, H))) if lvar else None
+    if lvar and adv and isinstance(adv[0].value, ast.Subscript) and isinstance(adv[0].value.slice, ast.Slice) and adv[0].value.slice.upper is None and adv[0].value.slice.lower is not None \
+            and P.self_attr(adv[0].value.value, parse.self_name) == rbuf:
+        # decided on facts, so that `end = H + l ... buffer[end:]` is the same advance
+        okv, _ = U.must(ctx, fres, U.node_containing(cfg, adv[0]).id, ('eq', ex.tb.term(adv[0].value.slice.lower), want_end))
     if okv:
         ctx.ok(inst, parse.loc(adv[0]), 'buffer = buffer[%d + %s:]' % (H, lvar))
     else:
@@ -815,9 +831,11 @@ def r_consume_once(ctx):
     pl = [s for s in ast.walk(parse.node) if isinstance(s, ast.Subscript) and isinstance(s.slice, ast.Slice) and P.self_attr(s.value, parse.self_name) == rbuf
           and s.slice.lower is not None and s.slice.upper is not None]
     okp = False
-    if pl:
-        lo, up = ex.tb.term(pl[0].slice.lower), ex.tb.term(pl[0].slice.upper)
-        okp = lo.const is not None and lo.const[0] == H and up.base is not None and up.base.key == lvar and up.off == H
+    if pl and lvar:
+        pn_ = U.node_containing(cfg, pl[0])
+        ok_lo, _ = U.must(ctx, fres, pn_.id, ('eq', ex.tb.term(pl[0].slice.lower), ex.tb.term(ast.Constant(value=H))))
+        ok_up, _ = U.must(ctx, fres, pn_.id, ('eq', ex.tb.term(pl[0].slice.upper), want_end))
+        okp = ok_lo and ok_up
     if okp:
         ctx.ok(inst, parse.loc(pl[0]), unparse(pl[0]))
     else:
@@ -828,7 +846,9 @@ def r_consume_once(ctx):
         if not calls:
             continue
         mcfg = U.explorer(ctx, m).cfg
-        pn = U.node_containing(mcfg, calls[0])
+        # the parse call that is repeated (a primed loop has one more call in front of the loop)
+        in_loop = [c for c in calls if any(isinstance(p, ast.While) for p in U.node_containing(mcfg, c).parents)]
+        pn = U.node_containing(mcfg, (in_loop or calls)[0])
         loops = [p for p in pn.parents if isinstance(p, ast.While)]
         inst = 'delivery loop re-checks the connection state after each message'
         ctx.tick()
